@@ -848,6 +848,16 @@ func checkNilContradictions(c *core.Ctx, prog *core.Prog, table *panicob.Table) 
 				for _, in := range b.Instrs {
 					var ptr ssa.Value
 					switch x := in.(type) {
+					case *ssa.Call:
+						// handing the pointer to a module function that dereferences that parameter first thing (no
+						// nil test of its own) is a dereference
+						if g := x.Common().StaticCallee(); g != nil && g.Blocks != nil && core.InModule(g) {
+							for i, a := range x.Common().Args {
+								if i < len(g.Params) && accessPath(a, 0) == path && derefsParamAtEntry(g, i) {
+									ptr = a
+								}
+							}
+						}
 					case *ssa.FieldAddr:
 						ptr = x.X
 					case *ssa.UnOp:
@@ -1203,4 +1213,38 @@ func checkRootFileOnlyForRoot(c *core.Ctx, prog *core.Prog) {
 			r.Fail("rootfile-in-ref-code:"+fnKeyFull(f), c.Pos(read), fmt.Sprintf("%s stamps its diagnostics with the parser's rootFile although %s: for an object reached through a $ref into another file the error names the root document with the other file's line and column", f.Name(), via))
 		}
 	}
+}
+
+
+// derefsParamAtEntry: the function dereferences its i-th parameter in its
+// entry block (before any branch could have tested it).
+func derefsParamAtEntry(g *ssa.Function, i int) bool {
+	if i >= len(g.Params) {
+		return false
+	}
+	p := g.Params[i]
+	if _, ok := p.Type().Underlying().(*types.Pointer); !ok {
+		return false
+	}
+	for _, in := range g.Blocks[0].Instrs {
+		switch x := in.(type) {
+		case *ssa.FieldAddr:
+			if x.X == ssa.Value(p) {
+				// an address computation alone does not fault; a load or store through it does
+				for _, ref := range *x.Referrers() {
+					if ri, ok := ref.(ssa.Instruction); ok && ri.Block() == g.Blocks[0] {
+						switch ref.(type) {
+						case *ssa.UnOp, *ssa.Store:
+							return true
+						}
+					}
+				}
+			}
+		case *ssa.UnOp:
+			if x.Op == token.MUL && x.X == ssa.Value(p) {
+				return true
+			}
+		}
+	}
+	return false
 }
